@@ -32,7 +32,7 @@ def corrupt(rng, xml_text):
     meta = root.find(q("TelemetryMetaData"))
     tset, pset, cset = meta.find(q("ParameterTypeSet")), meta.find(q("ParameterSet")), meta.find(q("ContainerSet"))
     conts = list(cset)
-    kind = rng.choice(["dup_type", "dup_type_changed", "dup_param", "dup_container_same", "dup_container_changed", "dangling_entry",
+    kind = rng.choice(["dup_type", "dup_type_changed", "dup_type_other_kind", "dup_param", "dup_container_same", "dup_container_changed", "dangling_entry",
                        "dangling_container_entry", "dangling_type", "dangling_base", "base_cycle", "nesting_cycle", "delete_param",
                        "delete_type", "delete_base", "self_base"])
     must = True
@@ -40,6 +40,14 @@ def corrupt(rng, xml_text):
         t = copy.deepcopy(rng.choice(list(tset)))
         if kind == "dup_type_changed":
             t.set("extra", "1")
+        tset.append(t)
+    elif kind == "dup_type_other_kind":
+        # the same name defined a second time by another kind of type element (integer <-> float)
+        cands = [t for t in tset if ET.QName(t).localname in ("IntegerParameterType", "FloatParameterType")]
+        if not cands:
+            return None
+        t = copy.deepcopy(rng.choice(cands))
+        t.tag = q("FloatParameterType" if ET.QName(t).localname == "IntegerParameterType" else "IntegerParameterType")
         tset.append(t)
     elif kind == "dup_param":
         pset.insert(rng.randrange(len(pset) + 1), copy.deepcopy(rng.choice(list(pset))))
